@@ -223,6 +223,43 @@ def _compare(net, neq, buses, tolv, tola):
 
 KN_REI = "C28-rei-sgen-at-load-bus"
 KN_OOS = "C28-rei-oos-gen-external"
+KN_XPV = "C28-xward-external-pv-bus"
+
+
+def _exact(n2, eq, bnd, internal):
+    """get_equivalent + runpp on n2 (already solved) reproduce the base case within the tolerances of the oracle"""
+    neq = get_equivalent(n2, eq, bnd, internal, calculate_voltage_angles=True)
+    pp.runpp(neq, **PF_KW)
+    return not _compare(n2, neq, internal + bnd, 1e-6 if eq != "rei" else 1e-5, 1e-4 if eq != "rei" else 1e-3)
+
+
+def _classify_xward(net, js, bnd, internal, ext):
+    """KN_XPV: the xward equivalent does not reproduce the base case (voltage angles of boundary buses, slightly also the
+    magnitudes) when an in-service PV generator sits on an external bus: _calculate_equivalent_Ybus pins those buses with
+    a 1e8 diagonal entry, which cuts every path between boundary buses that runs through them.  Identified by the guard,
+    by the ward equivalent of the same input being exact and by the electrically identical input with the external
+    generators written as sgens with their solved p/q being reduced exactly by xward."""
+    gi = net.gen.index[net.gen.bus.isin(ext) & net.gen.in_service]
+    if not len(gi):
+        return "spec"
+    try:
+        n2 = pp.from_json_string(js)
+        pp.runpp(n2, **PF_KW)
+        if not _exact(n2, "ward", bnd, internal):
+            return "spec"
+        n3 = pp.from_json_string(js)
+        pp.runpp(n3, **PF_KW)
+        for i in gi:
+            pp.create_sgen(n3, int(n3.gen.bus.at[i]), p_mw=float(n3.res_gen.p_mw.at[i]), q_mvar=float(n3.res_gen.q_mvar.at[i]))
+        n3.gen = n3.gen.drop(gi)
+        pp.runpp(n3, **PF_KW)
+        if _compare(n2, n3, internal + bnd, 1e-8, 1e-6):
+            return "spec"                # the rewritten input is not the same operating point
+        if not _exact(n3, "xward", bnd, internal):
+            return "spec"
+    except Exception:
+        return "spec"
+    return KN_XPV
 
 
 def _classify(net, js, eq, bnd, internal, ext, raised=False):
@@ -233,6 +270,8 @@ def _classify(net, js, eq, bnd, internal, ext, raised=False):
         elements of two different kinds (load / sgen / gen / shunt); identified by that guard, by the ward equivalent of the
         same input being exact and - for the sgen+load form - by the electrically identical net with the sgen written
         as a negative load being reduced exactly"""
+    if eq == "xward" and not raised:
+        return _classify_xward(net, js, bnd, internal, ext)
     if eq != "rei":
         return "spec"
     oos_ext = net.gen.index[net.gen.bus.isin(ext) & ~net.gen.in_service]
@@ -246,6 +285,26 @@ def _classify(net, js, eq, bnd, internal, ext, raised=False):
             # (the remaining deviation of such a net, if any, is the other recorded REI finding)
             if not _compare(n2, neq, internal + bnd, 1e-3, 1e-1):
                 return KN_OOS
+        except Exception:
+            pass
+    # load + sgen on one external bus: whatever the size of the deviation (observed up to 3e-3 p.u.; also as
+    # LoadflowNotConverged inside get_equivalent), the electrically identical input with the sgens of those buses written
+    # as negative loads must be reduced exactly and the ward equivalent of the input must be exact
+    both = sorted(set(int(b) for b in net.load.bus[net.load.bus.isin(ext) & net.load.in_service].values) &
+                  set(int(b) for b in net.sgen.bus[net.sgen.bus.isin(ext) & net.sgen.in_service].values))
+    if both:
+        try:
+            n2 = pp.from_json_string(js)
+            pp.runpp(n2, **PF_KW)
+            n3 = pp.from_json_string(js)
+            si = n3.sgen.index[n3.sgen.bus.isin(both) & n3.sgen.in_service]
+            for i in si:
+                pp.create_load(n3, int(n3.sgen.bus.at[i]), p_mw=-float(n3.sgen.p_mw.at[i]) * float(n3.sgen.scaling.at[i]),
+                               q_mvar=-float(n3.sgen.q_mvar.at[i]) * float(n3.sgen.scaling.at[i]))
+            n3.sgen = n3.sgen.drop(si)
+            pp.runpp(n3, **PF_KW)
+            if not _compare(n2, n3, internal + bnd, 1e-8, 1e-6) and _exact(n2, "ward", bnd, internal) and _exact(n3, "rei", bnd, internal):
+                return KN_REI
         except Exception:
             pass
     if raised:
